@@ -65,6 +65,12 @@ def all_patterns(n):
 def gen_sparse(rng, tier):
     out = []
     exhaustive_n = 3 if tier == "thorough" else 2
+    if tier != "thorough":
+        # every 3x3 pattern (empty rows / columns between non-empty ones, missing diagonals ...) once, in a random configuration
+        for pat in all_patterns(3):
+            L = rng.randrange(0, 5)
+            nb = rng.choice([1, 2] if L == 0 else [1, L, L + 1, 2 * L + 1])
+            out.append(_pattern_line(rng, rng.randrange(2), L, 3, nb, pat))
     for n in range(1, exhaustive_n + 1):
         for pat in all_patterns(n):
             for csc in (0, 1):
